@@ -46,7 +46,8 @@ def prog():
 # PLACEN is the foreign type's identifier (planted: "F" + a symbolic char)
 B_LIB = ("#[typeshare]\npub struct PLACEN { pub x: u32 }\n"
          "#[typeshare]\n#[serde(rename = \"Other\")]\npub struct Ren { pub y: u32 }\n"
-         "#[typeshare]\npub struct Unused { pub z: u32 }\n")
+         "#[typeshare]\npub struct Unused { pub z: u32 }\n"
+         "#[typeshare]\npub struct Gen<T> { pub t: T }\n")
 C_LIB = "#[typeshare]\npub struct PLACEN { pub w: String }\n"
 A_OTHER = "#[typeshare]\npub struct Local { pub q: bool }\n"
 
@@ -62,6 +63,9 @@ FORMS = {
     "glob-and-name": ("use b::*;\nuse b::Unused;", "PLACEN", ("import", "b", "N")),
     "qualified": ("", "b::PLACEN", ("import", "b", "N")),
     "qualified-module": ("", "b::inner::PLACEN", ("import", "b", "N")),
+    "qualified-in-qualified": ("", "b::Gen<b::PLACEN>", ("import", "b", "N")),
+    "qualified-in-used-generic": ("use b::Gen;", "Gen<b::PLACEN>", ("import", "b", "N")),
+    "used-in-qualified-generic": ("use b::PLACEN;", "b::Gen<PLACEN>", ("import", "b", "N")),
     "crate-path": ("use crate::other::Local;", "Local", ("none",)),
     "self-path": ("use self::other::Local;", "Local", ("none",)),
     "super-path": ("use super::other::Local;", "Local", ("none",)),
